@@ -262,6 +262,19 @@ func TestVerifC13Inputs(t *testing.T) {
 		}
 		r.proxy.Stats = saved
 	}
+	// a self redirect with no further host to fall back to is still not answered with a redirect onto itself
+	for _, tbl := range []string{"route add r / https://$host$path opts \"redirect=301\"\n", "route add r foo.com/ https://$host$path opts \"redirect=301\"\n"} {
+		r.setTable(tbl)
+		rec, _, _, err := r.do(rawRequest("GET", "/a", "foo.com", [][2]string{{"X-Forwarded-Proto", "https"}}, nil, false), "10.9.8.7:4711", nil)
+		if err != nil {
+			panic(err)
+		}
+		L.Case()
+		L.NontrivialKey("self-no-fallback" + tbl)
+		if rec.Code >= 300 && rec.Code < 400 && rec.Header().Get("Location") == "https://foo.com/a" {
+			L.Violation("self-redirect-not-skipped/no-further-host", map[string]interface{}{"table": strings.TrimSpace(tbl), "request": "https://foo.com/a (X-Forwarded-Proto: https)", "status": rec.Code, "location": rec.Header().Get("Location")})
+		}
+	}
 	// self redirect is skipped in favour of the next matching host: "own scheme, host and
 	// path" - the query plays no part
 	for _, tm := range []string{"https://foo.com/$path", "https://foo.com$path", "https://foo.com/", "https://foo.com/?own=1", "https://$host/$path"} {
